@@ -34,8 +34,14 @@ static inline Verdict parse_ip(const std::string &s, int family, Addr *out) {
   if (s.find('\0') != std::string::npos) return INVALID;
   Addr r; r.family = family;
   if (inet_pton(family, s.c_str(), r.a) == 1) { *out = r; return VALID; }
-  if (family == AF_INET) { bool dd = !s.empty(); for (char c : s) if (!((c >= '0' && c <= '9') || c == '.')) dd = false; if (dd) return UNSPEC; }   // "01.2.3.4"
-  if (family == AF_INET6 && s.find('%') != std::string::npos) return UNSPEC;
+  if (family == AF_INET) {   // "01.2.3.08": decimal components with leading zeros (documented libevent extension, not in inet_pton(3))
+    unsigned comp[4]; int n = 0; size_t i = 0; bool ok = !s.empty();
+    while (ok && n < 4) { size_t j = i; unsigned long v = 0; while (j < s.size() && s[j] >= '0' && s[j] <= '9' && j - i < 12) { v = v * 10 + (unsigned)(s[j] - '0'); j++; }
+      if (j == i || v > 255) { ok = false; break; } comp[n++] = (unsigned)v; i = j; if (n < 4) { if (i < s.size() && s[i] == '.') i++; else ok = false; } }
+    if (ok && n == 4 && i == s.size()) { for (int k = 0; k < 4; k++) r.a[k] = (uint8_t)comp[k]; *out = r; return UNSPEC; }
+  }
+  if (family == AF_INET6 && s.find('%') != std::string::npos) {   // scope ids: whether the zone resolves is the OS's business
+    if (inet_pton(AF_INET6, s.substr(0, s.find('%')).c_str(), r.a) == 1) { *out = r; return UNSPEC; } }
   return INVALID;
 }
 // port: 1..65535 written with decimal digits only.  `junk` reports a port part that starts with a digit/sign but is
